@@ -149,11 +149,15 @@ def programs(thorough):
         'bounds': ("bounds(T: TypeInfo + 'static)", "bounds(T: TypeInfo + 'static + Clone)"),
         'skip_type_params': ('skip_type_params(T)', 'skip_type_params(T)'),
         'capture_docs': ('capture_docs = "never"', 'capture_docs = "always"'),
+        'capture_docs-default-first': ('capture_docs = "default"', 'capture_docs = "never"'),
+        'capture_docs-default-twice': ('capture_docs = "DEFAULT"', 'capture_docs = "default"'),
+        'bounds-empty-first': ('bounds()', "bounds(u8: Clone)"),
+        'skip-empty-first': ('skip_type_params()', 'skip_type_params(T)'),
         'crate': ('crate = ::scale_info', 'crate = ::scale_info'),
     }
     for kind, (a1, a2) in dup.items():
-        body = 'pub struct S<T> { a: core::marker::PhantomData<T>, b: u8 }' if kind == 'skip_type_params' else 'pub struct S<T> { a: T }'
-        fillers = ['replace_segment("a", "b")'] + (['capture_docs = "always"'] if kind != 'capture_docs' else ['replace_segment("c", "d")'])
+        body = 'pub struct S<T> { a: core::marker::PhantomData<T>, b: u8 }' if kind in ('skip_type_params', 'skip-empty-first') else ('pub struct S { a: u8 }' if kind == 'bounds-empty-first' else 'pub struct S<T> { a: T }')
+        fillers = ['replace_segment("a", "b")'] + (['capture_docs = "always"'] if not kind.startswith('capture_docs') else ['replace_segment("c", "d")'])
         for nf in (0, 1, 2):
             fl = fillers[:nf]
             # one list: the two occurrences at every pair of positions
@@ -202,6 +206,10 @@ def programs(thorough):
         ("<T: TypeInfo + 'static>", 'a: [T; 2]', "[T; 2]: TypeInfo + 'static", "[T; 2]: TypeInfo + 'static, T: Clone", None),
         ("<T: TypeInfo + 'static, U: TypeInfo + 'static>", 'a: T, b: Vec<U>', "T: TypeInfo + 'static, Vec<U>: TypeInfo + 'static", "T: TypeInfo + 'static, U: TypeInfo + 'static", None),
         ("<T: TypeInfo + 'static, U: TypeInfo + 'static>", 'a: Vec<T>, b: core::marker::PhantomData<U>', "Vec<T>: TypeInfo + 'static", "T: TypeInfo + 'static", 'U'),
+        # the FIRST parameter missing from bounds(..) is skipped, a LATER one is neither bound nor skipped
+        ("<T, U: TypeInfo + 'static>", 'a: core::marker::PhantomData<T>, b: U', '', "U: TypeInfo + 'static", 'T'),
+        ("<T, U: TypeInfo + 'static, V: TypeInfo + 'static>", 'a: core::marker::PhantomData<T>, b: U, c: V', "U: TypeInfo + 'static", "U: TypeInfo + 'static, V: TypeInfo + 'static", 'T'),
+        ("<T: TypeInfo + 'static, U, V: TypeInfo + 'static>", 'a: T, b: core::marker::PhantomData<U>, c: V', "T: TypeInfo + 'static", "T: TypeInfo + 'static, V: TypeInfo + 'static", 'U'),
     ]
     for i, (gen, body, bad_b, good_b, skip) in enumerate(cases):
         sk = (', skip_type_params(%s)' % skip) if skip else ''
